@@ -53,6 +53,9 @@ def plan(tier, seed):
             U += u(gen.random_custom_cfg(rng, rng.choice((2, 3, 3, 4))), 30, 6)
         for c in gen.NAMED:
             U += u(c, 25, 4)
+        # the symbolic zero filter switched off: the closed forms (d <= 5) and the iterative scheme (d >= 6) see vanishing coefficients as stored zeros
+        for c in ({'p': 3, 'q': 0, 'r': 0}, {'p': 3, 'q': 0, 'r': 1}, {'p': 6, 'q': 0, 'r': 0}, {'p': 4, 'q': 1, 'r': 1}):
+            U += u(dict(c, opts={'simp_func': 'none'}), 12 if gen.cfg_dim(c) >= 6 else 30, 3)
         nshards = 16
     else:
         for c in gen.sig_orderings(1, 2):
@@ -73,6 +76,8 @@ def plan(tier, seed):
             U += u(gen.random_custom_cfg(rng, rng.choice((2, 3, 3, 4, 4, 5))), 120, 5)
         for c in gen.NAMED:
             U += u(c, 60, 4)
+        for c in rng.sample(gen.pqr_all(3, 5), 8) + rng.sample(gen.pqr_all(6, 6), 4):
+            U += u(dict(c, opts={'simp_func': 'none'}), 40 if gen.cfg_dim(c) >= 6 else 120, 3)
         nshards = 64
     rng.shuffle(U)
     return [{'units': part} for part in gen.split(U, nshards)]
